@@ -15,7 +15,7 @@ from the recipe by an independent specification; File.validate()['errors'] must
 equal it object by object - empty for consistent recipes, nothing attributed to
 untouched objects.
 """
-from vf.ob import Ob, assume
+from vf.ob import Ob, assume, untraced
 from vf import models, fakeh5, nixfake
 
 PROPERTY = "C14"
@@ -61,6 +61,11 @@ def _errors(f):
 
 
 def _base():
+    with untraced():
+        return _base_concrete()
+
+
+def _base_concrete():
     import nixio
     nixfake.begin()
     f = nixio.File(PATH, "w")
